@@ -1524,6 +1524,7 @@ mod oracle {
 
     // ---------------------------------------------------------------- C12 ------------
     /// reference ESS (f64): M*N/tau with Geyer's initial positive, monotone pair sums on the half-chains
+    pub fn reference_split_ess_pub(x: &[Vec<f64>]) -> f64 { reference_split_ess(x) }
     fn reference_split_ess(x: &[Vec<f64>]) -> f64 {
         let n = x[0].len();
         let half = n / 2;
@@ -1828,6 +1829,147 @@ mod oracle {
                             }
                         }
                     }
+                }
+            }
+        }
+    }
+}
+
+/// Seeded random exploration on the real code (bounded): a few hundred random cases per run in the quick tier, twenty times as
+/// many in the thorough tier (`VERIF_TIER=thorough`), reproducible from `VERIF_SEED`.
+mod explore {
+    use super::*;
+    use mini_mcmc::core::MarkovChain;
+    use mini_mcmc::metropolis_hastings::MHMarkovChain;
+    fn rounds(base: usize) -> usize {
+        if std::env::var("VERIF_TIER").as_deref() == Ok("thorough") { base * 20 } else { base }
+    }
+    fn seed0() -> u64 {
+        std::env::var("VERIF_SEED").ok().and_then(|s| s.parse().ok()).unwrap_or(0)
+    }
+    fn witness(s: String) -> ! {
+        println!("WITNESS {s}");
+        panic!("{s}");
+    }
+    #[derive(Clone)]
+    struct Tab { lp: Vec<f64> }
+    impl Target<i32, f64> for Tab {
+        fn unnorm_logp(&self, p: &[i32]) -> f64 { self.lp[p[0].rem_euclid(self.lp.len() as i32) as usize] }
+    }
+    #[derive(Clone)]
+    struct TabQ { k: usize, lq: Vec<f64>, rng: SmallRng }
+    impl Proposal<i32, f64> for TabQ {
+        fn sample(&mut self, _c: &[i32]) -> Vec<i32> { vec![self.rng.random_range(0..self.k as i32)] }
+        fn logp(&self, from: &[i32], to: &[i32]) -> f64 { self.lq[from[0].rem_euclid(self.k as i32) as usize * self.k + to[0].rem_euclid(self.k as i32) as usize] }
+        fn set_seed(mut self, s: u64) -> Self { self.rng = SmallRng::seed_from_u64(s); self }
+    }
+    fn pick(rng: &mut SmallRng) -> f64 {
+        match rng.random_range(0..10u32) {
+            0 => f64::NEG_INFINITY,
+            1 => f64::INFINITY,
+            2 => f64::NAN,
+            3 => -745.0 - rng.random::<f64>() * 10.0,
+            4 => 0.0,
+            _ => (rng.random::<f64>() - 0.5) * 40.0,
+        }
+    }
+    /// C01 on random finite state spaces: random (also non-finite) log-densities, random asymmetric random proposals
+    #[test]
+    fn oracle_c01_random_tables() {
+        for r in 0..rounds(150) as u64 {
+            let mut g = SmallRng::seed_from_u64(seed0().wrapping_mul(1_000_003).wrapping_add(r));
+            let k = g.random_range(2..6usize);
+            let lp: Vec<f64> = (0..k).map(|_| pick(&mut g)).collect();
+            let lq: Vec<f64> = (0..k * k).map(|_| pick(&mut g)).collect();
+            let start = g.random_range(0..k as i32);
+            let mut chain: MHMarkovChain<i32, f64, _, _> = MHMarkovChain::new(Tab { lp: lp.clone() }, TabQ { k, lq: lq.clone(), rng: SmallRng::seed_from_u64(r) }, vec![start]);
+            chain.rng = SmallRng::seed_from_u64(r ^ 0x9e37);
+            for step in 0..8 {
+                let x = chain.current_state.clone();
+                let y = chain.proposal.clone().sample(&x);
+                let u: f64 = chain.rng.clone().random();
+                let ratio = (lp[y[0] as usize] + lq[y[0] as usize * k + x[0] as usize]) - (lp[x[0] as usize] + lq[x[0] as usize * k + y[0] as usize]);
+                let want = if u.ln() < ratio { y.clone() } else { x.clone() };
+                let got = chain.step().clone();
+                if got != want {
+                    witness(format!("{{\"oracle\":\"c01\",\"verif_seed\":{},\"round\":{r},\"step\":{step},\"k\":{k},\"lp\":\"{lp:?}\",\"lq\":\"{lq:?}\",\"x\":{x:?},\"y\":{y:?},\"u\":\"{u}\",\"got\":{got:?},\"want\":{want:?}}}", seed0()));
+                }
+            }
+        }
+    }
+    /// C11 + C12 on random AR(1) arrays of random shape against f64 references
+    #[test]
+    fn oracle_c11_c12_random_arrays() {
+        use mini_mcmc::stats::split_rhat_mean_ess;
+        for r in 0..rounds(60) as u64 {
+            let mut g = SmallRng::seed_from_u64(seed0().wrapping_mul(7_000_003).wrapping_add(r));
+            let (n_chains, n, n_params) = (g.random_range(1..6usize), g.random_range(4..420usize), g.random_range(1..4usize));
+            let phi: f64 = g.random::<f64>() * 1.6 - 0.75;
+            let scale = 10f64.powf(g.random::<f64>() * 6.0 - 3.0);
+            let offs: Vec<f64> = (0..n_chains).map(|_| (g.random::<f64>() - 0.5) * 0.5).collect();
+            let mut data = vec![vec![vec![0.0f64; n]; n_params]; n_chains];
+            for c in 0..n_chains {
+                for p in 0..n_params {
+                    let mut st = 0.0;
+                    for t in 0..n {
+                        st = phi * st + (g.random::<f64>() - 0.5);
+                        data[c][p][t] = (st + offs[c]) * scale;
+                    }
+                }
+            }
+            let arr = ndarray::Array3::from_shape_fn((n_chains, n, n_params), |(c, t, p)| data[c][p][t] as f32);
+            let (rhat, ess) = split_rhat_mean_ess(arr.view());
+            for p in 0..n_params {
+                let chains: Vec<Vec<f64>> = (0..n_chains).map(|c| data[c][p].iter().map(|x| (*x as f32) as f64).collect()).collect();
+                let (wr, we) = (reference_split_rhat(&chains), super::oracle::reference_split_ess_pub(&chains));
+                let ctx = format!("\"verif_seed\":{},\"round\":{r},\"chains\":{n_chains},\"draws\":{n},\"params\":{n_params},\"param\":{p},\"phi\":{phi},\"scale\":{scale}", seed0());
+                if !((rhat[p] as f64 - wr).abs() <= 5e-3 * wr.abs()) {
+                    witness(format!("{{\"oracle\":\"c11\",{ctx},\"got\":{},\"want\":{wr},\"what\":\"split R-hat differs from sqrt(var+/W) of the half-chains\"}}", rhat[p]));
+                }
+                // compared on the scale of tau = M*N/ESS: when tau is close to 0 (strongly antithetic chains) ESS itself is ill-conditioned
+                let mn = (n_chains * 2 * (n / 2)) as f64;
+                let (tg, tw) = (mn / ess[p] as f64, mn / we);
+                if !((tg - tw).abs() <= 2e-2 * tw.abs() + 1e-3) {
+                    witness(format!("{{\"oracle\":\"c12\",{ctx},\"got\":{},\"want\":{we},\"what\":\"ESS differs from M*N/tau with Geyer's monotone pair sums\"}}", ess[p]));
+                }
+            }
+        }
+    }
+    /// C13 on random update sequences: the multi-chain tracker and collect_rhat over per-chain trackers fed the same data agree
+    #[test]
+    fn oracle_c13_random_updates() {
+        use mini_mcmc::stats::{collect_rhat, ChainStats, ChainTracker, MultiChainTracker};
+        for r in 0..rounds(80) as u64 {
+            let mut g = SmallRng::seed_from_u64(seed0().wrapping_mul(13_000_003).wrapping_add(r));
+            let (n_chains, n, n_params) = (g.random_range(2..6usize), g.random_range(3..80usize), g.random_range(1..5usize));
+            let stick: f64 = g.random::<f64>() * 0.7;
+            let mut multi = MultiChainTracker::new(n_chains, n_params);
+            let mut cur: Vec<Vec<f64>> = (0..n_chains).map(|c| (0..n_params).map(|p| c as f64 + 0.3 * p as f64).collect()).collect();
+            let mut trackers: Vec<ChainTracker> = (0..n_chains).map(|c| ChainTracker::new(n_params, &cur[c])).collect();
+            for _ in 0..n {
+                let mut flat = vec![];
+                for c in 0..n_chains {
+                    if g.random::<f64>() >= stick {
+                        for p in 0..n_params { cur[c][p] += g.random::<f64>() - 0.5; }
+                    }
+                    trackers[c].step(&cur[c]).unwrap();
+                    flat.extend(cur[c].iter().cloned());
+                }
+                multi.step(&flat).unwrap();
+            }
+            let stats: Vec<ChainStats> = trackers.iter().map(|t| t.stats()).collect();
+            let refs: Vec<&ChainStats> = stats.iter().collect();
+            let a = collect_rhat(&refs);
+            let b = multi.rhat().unwrap();
+            for p in 0..n_params {
+                let (x, y) = (a[p] as f64, b[p] as f64);
+                if !(x == y || (x - y).abs() <= 2e-3 * x.abs().max(y.abs()) || (x.is_nan() && y.is_nan())) {
+                    witness(format!("{{\"oracle\":\"c13\",\"verif_seed\":{},\"round\":{r},\"chains\":{n_chains},\"updates\":{n},\"params\":{n_params},\"param\":{p},\"collect_rhat\":{x},\"multi_chain_tracker\":{y},\"what\":\"the two R-hat computations disagree on the same data\"}}", seed0()));
+                }
+            }
+            for t in &stats {
+                if !(0.0..=1.0).contains(&t.p_accept) || t.n != n as u64 {
+                    witness(format!("{{\"oracle\":\"c13\",\"verif_seed\":{},\"round\":{r},\"what\":\"count {} / acceptance rate {} after {n} updates\"}}", seed0(), t.n, t.p_accept));
                 }
             }
         }
